@@ -6,7 +6,8 @@ import Mathlib.Tactic.Linarith
   `int` / `opus_int32`.  For each function of the sizing stage this file lists EVERY intermediate value the
   C expression forms (in evaluation order, file:line cited) as a *trace*, shows that the last entry of the
   trace is the model function's value, and proves that all entries lie in [-2^31, 2^31) on the domain the
-  API admits (`stOk`: Fs in the five rates, 1-2 channels, user bit-rate AUTO / MAX / 500..750000·channels;
+  API admits (`stOk`: Fs in the five rates, 1-2 channels, user bit-rate AUTO / MAX / 500..750000·channels — the ctl
+  really clamps to 300000·channels, which `budget_rate_frame` (EncSkelRanges3) needs as an extra hypothesis;
   legal frame size; `max_data_bytes = IMIN(1276, out_data_bytes) ≥ 1`).  Hence the unbounded reading and
   the C reading coincide there: no wrap, no signed-overflow UB.
 -/
